@@ -27,16 +27,125 @@ def check_create(h: Harness, spec, b, kind, depth, draws):
     line_spec = gram.spec_sx(spec)
     site = f"TreeBasedRepresentation.create_genotype[{kind}]"
     nontrivial = res[0] == "err" or sx(res).count("(n ") >= 2
-    h.agree(site, ["create", line_spec, [kind, depth], list(draws)], res, nontrivial=nontrivial)
+    # ProgressivelyTerminalDecider does not filter by feasibility: on a grammar with an unproductive
+    # symbol its heuristic weights go negative (outside the model) -- checked by the predicate only,
+    # under its own finding key
+    degenerate = kind == "progressive" and any(b.grammar.distanceToTerminal[s] >= 1000000 for s in b.grammar.all_nodes)
+    if not degenerate:
+        h.agree(site, ["create", line_spec, [kind, depth], list(draws)], res, nontrivial=nontrivial)
     h.count(f"decider={kind}")
     if res[0] == "ok":
         h.count("created")
-        h.holds(site, "ill-typed-program", ["prop_wt", line_spec, res[1]],
+        h.holds("ProgressivelyTerminalDecider" if degenerate else site,
+                "unproductive-symbol-instantiated" if degenerate else "ill-typed-program", ["prop_wt", line_spec, res[1]],
                 f"created program is not well-typed: {sx(res[1])[:300]}", [sx(line_spec), kind, depth, list(draws)])
     else:
         h.count("error:" + res[1])
-        if res[1].startswith("foreign"):
+        if res[1].startswith("foreign") and not degenerate:
             h.fail(site, "foreign-error", f"creation failed with {res[1]} instead of the library's error", [sx(line_spec), kind, depth, list(draws)])
+
+
+def check_linear(h: Harness, spec, b, g, mind, rng):
+    """create / mutate / crossover genotypes of GE, SGE, dynamic SGE and stack; every mapped
+    program must be well-typed (or mapping must fail with the library's error)."""
+    import linear
+    from linear import DSGE, GE, SGE, CountingSource, Stack, safe
+    from core import ScriptedSource
+    from geneticengine.random.sources import NativeRandomSource
+    line_spec = gram.spec_sx(spec)
+    d = mind + rng.choice([0, 1, 2])
+    kind = rng.choice(["grow", "full", "pigrow"])
+    shared = NativeRandomSource(rng.randrange(10**6))
+    reps = [("GE", GE(g, synth.make_decider(kind, d, shared, g), gene_length=rng.choice([16, 64]))),
+            ("SGE", SGE(g, synth.make_decider(kind, d, shared, g), gene_length=rng.choice([16, 64]))),
+            ("DynamicSGE", DSGE(g, d)),
+            ("Stack", Stack(g, gene_length=rng.choice([128, 512])))]
+    try:
+        g.get_all_mentioned_symbols()
+    except RecursionError:
+        h.fail("Stack.genotype_to_phenotype", "foreign-error:RecursionError",
+               "Grammar.get_all_mentioned_symbols() (used by every stack mapping) recurses forever on this grammar", [sx(line_spec)])
+        reps = reps[:3]
+    for name, rep in reps:
+        src = ScriptedSource([rng.randrange(0, 5000) for _ in range(600)]) if name == "DynamicSGE" else shared
+        pool = []
+        for step in range(h.n(4, 8)):
+            r = rng.random()
+            if len(pool) < 2 or r < 0.34:
+                st, x = safe(lambda: rep.create_genotype(src))
+                out = [x] if st == "ok" else []
+            elif r < 0.67:
+                st, x = safe(lambda: rep.mutate(src, rng.choice(pool)))
+                out = [x] if st == "ok" else []
+            else:
+                st, x = safe(lambda: rep.crossover(src, rng.choice(pool), rng.choice(pool)))
+                out = list(x) if st == "ok" else []
+            if st == "err":
+                h.fail(f"{name}.operators", "foreign-error" if x.startswith("foreign") else "operator-fails",
+                       f"genotype operator raised {x}", [sx(line_spec), name, step])
+                continue
+            for geno in out:
+                pool.append(geno)
+                st, p = safe(lambda: rep.genotype_to_phenotype(geno))
+                site = f"{name}.genotype_to_phenotype"
+                h.count(f"{name}:{st}")
+                if st == "skip":
+                    continue
+                if st == "err":
+                    h.seen(sx([name, line_spec, step, "err"]))
+                    if p.startswith("foreign"):
+                        degenerate = any(g.distanceToTerminal[s] >= 1000000 for s in g.all_nodes)
+                        h.fail(site, "unproductive-symbol:" + p if degenerate else "foreign-error",
+                               f"mapping failed with {p} instead of the library's error", [sx(line_spec), name, kind, d])
+                    continue
+                try:
+                    c = gram.canon(p, b)
+                    h.holds(site, "ill-typed-program", ["prop_wt", line_spec, c],
+                            f"mapped program is not well-typed: {sx(c)[:300]}", [sx(line_spec), name, kind, d])
+                except RecursionError:
+                    h.count("skipped-recursion")
+
+
+def check_tree_ops(h: Harness, spec, b, g, mind, rng):
+    """finite sequences of create / mutate / crossover on a pool of tree individuals"""
+    import warnings
+    from core import ScriptedSource
+    from geneticengine.representations.tree.treebased import TreeBasedRepresentation
+    line_spec = gram.spec_sx(spec)
+    d = mind + rng.choice([0, 1, 2, 3])
+    kind = rng.choice(["grow", "full", "pigrow", "progressive"])
+    src = ScriptedSource([rng.randrange(0, 1000) for _ in range(4000)])
+    with warnings.catch_warnings():
+        warnings.simplefilter("ignore")
+        rep = TreeBasedRepresentation(g, synth.make_decider(kind, d, src, g))
+    from linear import safe
+    pool = []
+    for step in range(h.n(6, 12)):
+        r = rng.random()
+        if len(pool) < 2 or r < 0.3:
+            op, (st, x) = "create", safe(lambda: rep.create_genotype(src))
+            out = [x] if st == "ok" else []
+        elif r < 0.65:
+            op, (st, x) = "mutate", safe(lambda: rep.mutate(src, rng.choice(pool)))
+            out = [x] if st == "ok" else []
+        else:
+            op, (st, x) = "crossover", safe(lambda: rep.crossover(src, rng.choice(pool), rng.choice(pool)))
+            out = list(x) if st == "ok" else []
+        site = f"TreeBasedRepresentation.{op}[{kind}]"
+        degenerate = kind == "progressive" and any(g.distanceToTerminal[s] >= 1000000 for s in g.all_nodes)
+        if degenerate:
+            site = "ProgressivelyTerminalDecider"
+        if st == "err" and x.startswith("foreign") and not degenerate:
+            h.fail(site, "foreign-error", f"{op} failed with {x} instead of the library's error", [sx(line_spec), kind, d, step])
+        for v in out:
+            if len(pool) < 6:
+                pool.append(v)
+            try:
+                c = gram.canon(v, b)
+                h.holds(site, "unproductive-symbol-instantiated" if degenerate else "ill-typed-program", ["prop_wt", line_spec, c],
+                        f"program after {op} is not well-typed: {sx(c)[:300]}", [sx(line_spec), kind, d, step])
+            except RecursionError:
+                h.count("skipped-recursion")
 
 
 def run(h: Harness):
@@ -62,3 +171,7 @@ def run(h: Harness):
             depth = max(0, mind + rng.choice([-1, 0, 0, 1, 1, 2, 3, 4]))
             draws = [rng.randrange(0, 1000) for _ in range(rng.choice([8, 32, 128]))]
             check_create(h, spec, b, kind, depth, draws)
+        if rng.random() < 0.5:
+            check_tree_ops(h, spec, b, g, mind, rng)
+        if rng.random() < 0.5 and not dep:
+            check_linear(h, spec, b, g, mind, rng)
